@@ -41,6 +41,47 @@ def impl_escape(payload):
     return enc_str(tags._escape(x))
 
 
+def impl_strip_delay(b):
+    from lib import terminal
+    return enc_str(terminal._strip_delay(bytes(b)).decode('latin-1'))
+
+
+def ref_padding(b):
+    """independent reading of terminfo(5) padding: "$<" number ["*"]["/"] ">", number = digits | digits "." digits+ ; returns the text without it,
+    or None when the text contains a "$" that does not start such a specification (outside the spec's domain)"""
+    out, i = bytearray(), 0
+    while i < len(b):
+        if b[i] != 0x24:
+            out.append(b[i])
+            i += 1
+            continue
+        j = i + 1
+        if j >= len(b) or b[j] != 0x3c:
+            return None
+        j += 1
+        k = j
+        while k < len(b) and 0x30 <= b[k] <= 0x39:
+            k += 1
+        ip = k - j
+        fp = None
+        if k < len(b) and b[k] == 0x2e:
+            k += 1
+            m = k
+            while k < len(b) and 0x30 <= b[k] <= 0x39:
+                k += 1
+            fp = k - m
+        if (fp is None and ip == 0) or fp == 0:
+            return None
+        if k < len(b) and b[k] == 0x2a:
+            k += 1
+        if k < len(b) and b[k] == 0x2f:
+            k += 1
+        if k >= len(b) or b[k] != 0x3e:
+            return None
+        i = k + 1
+    return bytes(out)
+
+
 def impl_fmtline(payload):
     sev, cer, target, name, extras = payload
     from lib import tags
@@ -53,6 +94,10 @@ def impl_fmtline(payload):
 
 def enc_arg(kind, val):
     return kind + ' ' + (enc_bytes(val) if kind == 'bytes' else enc_str(val))
+
+
+def enc_bytes_as_str(b):
+    return enc_str(bytes(b).decode('latin-1'))
 
 
 def is_clean(s):
@@ -215,6 +260,25 @@ def check(ctx):
             ctx.disagree('fmtline', {'sev': payload[0], 'cer': payload[1]}, m, r)
         if dec_str(r)[0] != want[(payload[0], payload[1])]:
             ctx.fail('priority-letter', {'severity': payload[0], 'certainty': payload[1]}, 'letter %r, the property\'s table says %r' % (dec_str(r)[0], want[(payload[0], payload[1])]))
+    # ---- (a2) padding removal of lib/terminal.py: model vs terminal._strip_delay, and the terminfo(5) reading on strings made of padding and plain text
+    palpha = [0x24, 0x3c, 0x3e, 0x30, 0x37, 0x2e, 0x2a, 0x2f, 0x78]
+    pcases = [bytes(t) for k in range(0, 6 if ctx.quick() else 8) for t in itertools.product(palpha, repeat=k)]
+    pieces = [b'\x1b[0m', b'\x1b[3%p1%dm', b'x', b'', b'$<2>', b'$<20>', b'$<100>', b'$<1.5>', b'$<.5>', b'$<12.34>', b'$<5*>', b'$<5/>', b'$<50*/>', b'$<0.1*/>',
+              b'$<250/>', b'$<5/*>', b'$<>', b'$<.>', b'$<5.>', b'$<*>', b'$<5', b'$5>', b'$', b'<5>', b'$<5**>', b'$<5//>', b'$<\xb2>', b'$<5 >']
+    for _ in range(3000 if ctx.quick() else 60000):
+        pcases.append(b''.join(rng.choice(pieces) for _ in range(rng.randrange(1, 6))))
+    pres = common.compare_parallel('harness.c02', 'impl_strip_delay', [('strip_delay ' + enc_bytes_as_str(b), list(b)) for b in pcases])
+    ctx.evaluations += len(pres)
+    for (line, b, m, r) in pres:
+        b = bytes(b)
+        if m != r:
+            ctx.disagree('strip_delay', {'capability': repr(b)}, m, r)
+        want = ref_padding(b)
+        if want is not None:
+            if b'$' in b:
+                ctx.nontriv(('pad', b))
+            if dec_str(r) != want.decode('latin-1'):
+                ctx.fail('padding-kept', {'capability': repr(b)}, 'terminal._strip_delay gives %r, terminfo(5) padding removed gives %r' % (dec_str(r), want))
     # ---- (b) hostile catalogs through the real checker, recorded tags
     ncat = 600 if ctx.quick() else 20000
     payloads = []
